@@ -30,9 +30,9 @@ BaseMatMul(a, b) ==
 
 MatMulT(a, b) ==
   IF IsErr(a) \/ IsErr(b) THEN ErrT
-  ELSE CASE a.k = "id" -> b                                   \* IdentityOperator.__matmul__ (no check)
-    [] a.k = "hom" /\ b.k = "hom" ->                           \* HomothetyOperator.__matmul__ (no check)
-         Hom(a.p[1] * b.p[1], a.p[2] * b.p[2], a.s)
+  ELSE CASE a.k = "id" -> IF InS(a) # OutS(b) THEN ErrT ELSE b    \* IdentityOperator.__matmul__
+    [] a.k = "hom" /\ b.k = "hom" ->                              \* HomothetyOperator.__matmul__
+         IF InS(a) # OutS(b) THEN ErrT ELSE Hom(a.p[1] * b.p[1], a.p[2] * b.p[2], a.s)
     [] a.k \in LazyInverseKinds /\ OperatorIs(a, b) -> Id(InS(a))
     [] a.k = "comp" ->
          IF InS(a) # OutS(b) THEN ErrT
